@@ -136,7 +136,9 @@ func (m *Manager) startPipeline(ctx context.Context, pipeline ledger.Pipeline) (
 	subscription := make(chan uint64)
 
 	m.logger.Infof("starting handler")
+	stateStored := make(chan struct{})
 	go func() {
+		defer close(stateStored)
 		for lastLogID := range subscription {
 			if err := m.storage.StorePipelineState(ctx, pipeline.ID, lastLogID); err != nil {
 				m.logger.Errorf("Unable to store state: %s", err)
@@ -148,9 +150,13 @@ func (m *Manager) startPipeline(ctx context.Context, pipeline ledger.Pipeline) (
 			m.mu.Lock()
 			defer m.mu.Unlock()
 			defer m.pipelinesWaitGroup.Done()
-			close(subscription)
 		}()
 		pipelineHandler.Run(ctx, subscription)
+		// No more state to store. Wait for the write in flight, if any, before reporting the
+		// pipeline as terminated: whoever stopped it (a reset, notably) may rewrite the state next.
+		close(subscription)
+		<-stateStored
+		close(pipelineHandler.terminated)
 	}()
 
 	return pipelineHandler, nil
@@ -164,6 +170,12 @@ func (m *Manager) stopPipeline(ctx context.Context, id string) error {
 
 	if err := handler.Shutdown(ctx); err != nil {
 		return fmt.Errorf("error stopping pipeline: %w", err)
+	}
+	// the pipeline no longer exports; let its last state write land before going on
+	select {
+	case <-handler.terminated:
+	case <-ctx.Done():
+		return fmt.Errorf("error stopping pipeline: %w", ctx.Err())
 	}
 	delete(m.pipelines, id)
 
